@@ -125,8 +125,11 @@ type Sidecar struct {
 	HeadErr error
 	// Generated holds the last generated Prometheus configuration (when WithInjector)
 	Generated []byte
-	inj       *sidecar.Injector
-	withInj   bool
+	// Told is what the Prometheus of this shard was last told to scrape: the targets handed to the
+	// update callbacks (the injector's input) since this process started; nil until a callback ran
+	Told    map[string][]*target.Target
+	inj     *sidecar.Injector
+	withInj bool
 }
 
 // NewSidecar builds a sidecar on a store directory. Load() is called like at process start.
@@ -158,6 +161,15 @@ func (s *Sidecar) patchClients(cfg *prom.ConfigInfo) error {
 // start creates the process-lifetime objects (targets manager, service, proxy) and loads the store.
 func (s *Sidecar) start() error {
 	s.TM = sidecar.NewTargetsManager(s.Dir, prometheus.NewRegistry(), Quiet)
+	s.Told = nil
+	s.TM.AddUpdateCallbacks(func(ts map[string][]*target.Target) error {
+		cp := map[string][]*target.Target{}
+		for j, l := range ts {
+			cp[j] = append([]*target.Target{}, l...)
+		}
+		s.Told = cp
+		return nil
+	})
 	if s.withInj {
 		s.TM.AddUpdateCallbacks(s.inj.UpdateTargets)
 	}
